@@ -158,9 +158,27 @@ def main():
         if len(samples) < 5 and c["name"].startswith("rand"): samples.append({"name": c["name"], "argv": c["argv"], "env": c["env"], "expected": c["expect"], "observed": r["rc"], "report_written": r["report_exists"]})
         for key, what in evaluate(c, r):
             viols.append(Violation("C20", key, what, {"case": c, "rc": r["rc"], "stderr_tail": r.get("stderr", "")[-600:], "report_exists": r["report_exists"]}, jobs=[c]))
+    # valid invocations over diverse real projects (the shared grid: every codemod, contexts, layouts, SAST inputs): a completed run exits 0 -
+    # an exception escaping run() is the console script's exit status 1 with a traceback, which the table does not allow for valid input
+    from vf.checks import grid
+    from vf.runner import run_jobs
+    gj = grid.plan("quick", seed); rnd2 = random.Random(f"C20-grid:{seed}")
+    by_cm = collections.defaultdict(list)
+    for j in gj: by_cm[j["cid"]].append(j)
+    sample = [rnd2.choice(v_) for k_, v_ in sorted(by_cm.items())] + rnd2.sample(gj, min(len(gj), 60 if tier == "quick" else 600))
+    for j in sample: j["repeat"] = 1; j["want_trace"] = False
+    gres = run_jobs(sample, timeout=600); n_grid = 0
+    for j, r in zip(sample, gres):
+        if r.get("status") != "ok": inconcl += 1; continue
+        run = r["runs"][0]; n += 1; n_grid += 1; by_cls["completed"] += 1; by_rc[str(run["rc"])] += 1
+        nt.add(("grid", j["id"]))
+        if run["rc"] != 0 or run["exc"]:
+            what = (run["exc"] or "").split(":")[0] or f"rc={run['rc']}"
+            viols.append(Violation("C20", f"exit-status/completed/expected-0-got-{what}/{j['cid'].split('/')[1]}", f"valid invocation of {j['cid']} did not complete with status 0: rc={run['rc']} exc={run['exc']}",
+                                   {"argv": j["argv"], "log_tail": run["log"][-1200:]}, jobs=[{k: v for k, v in j.items() if not k.startswith("_")}]))
     return finish("C20", "exploration", tier, seed, t0, evaluations=n, nontrivial=nt, violations=viols, min_nontrivial=40, inconclusive_cases=inconcl, samples=samples, module=__name__,
                   rule="enumerated table (every valid option alone, every error class alone, precedence pairs, info flags, AI-client environments, unwritable outputs) + seeded random compositions of option groups with 0-2 error conditions, positional directory at a random position; every invocation is decisive; distinct = distinct (argv, env)",
-                  stats={"by_condition_class": dict(by_cls), "by_observed_status": dict(by_rc)}, required={k: by_cls.get(k, 0) for k in ("completed", "info", "missing-directory", "missing-or-duplicate-result-file", "argument-error", "ai-misconfigured", "unwritable-output")},
+                  stats={"by_condition_class": dict(by_cls), "by_observed_status": dict(by_rc), "valid_grid_runs": n_grid}, required={k: by_cls.get(k, 0) for k in ("completed", "info", "missing-directory", "missing-or-duplicate-result-file", "argument-error", "ai-misconfigured", "unwritable-output")},
                   assumptions=["the documented status table of the property statement; precedence = order in which the run can detect the conditions (arguments, directory, result files, AI configuration, report)",
                                "complete AI-client configurations are not generated: the openai package installed in this sandbox cannot construct a client (environment artefact, see DESIGN.md C20)",
                                "malformed result-file content is outside the statement and is not generated"])
@@ -168,6 +186,11 @@ def main():
 def replay(art):
     out = []
     for c in art.get("jobs") or []:
+        if "files" in c:
+            from vf.runner import run_jobs
+            r = run_jobs([c], timeout=600)[0]
+            if r.get("status") == "ok" and (r["runs"][0]["rc"] != 0 or r["runs"][0]["exc"]): out.append(Violation("C20", art["key"], "reproduced", {}))
+            continue
         r = one(c)
         for key, what in evaluate(c, r): out.append(Violation("C20", key, what, {"rc": r["rc"]}))
     return out
